@@ -245,6 +245,11 @@ pub(super) trait DialectHandler: Any + Debug {
         false
     }
 
+    /// Engines that have no `OFFSET` without `LIMIT`: the limit that means "all remaining rows".
+    fn limit_for_bare_offset(&self) -> Option<&'static str> {
+        None
+    }
+
     /// Whether window functions require an ORDER BY clause.
     /// Snowflake requires ORDER BY for ranking functions like ROW_NUMBER().
     fn requires_order_by_in_window_function(&self) -> bool {
@@ -407,6 +412,11 @@ impl DialectHandler for GlareDbDialect {
 }
 
 impl DialectHandler for SQLiteDialect {
+    // https://www.sqlite.org/lang_select.html#limitoffset: a negative LIMIT means "no upper bound"
+    fn limit_for_bare_offset(&self) -> Option<&'static str> {
+        Some("-1")
+    }
+
     fn set_ops_distinct(&self) -> bool {
         false
     }
@@ -487,6 +497,11 @@ impl DialectHandler for MsSqlDialect {
 impl DialectHandler for MySqlDialect {
     fn ident_quote(&self) -> char {
         '`'
+    }
+
+    // https://dev.mysql.com/doc/refman/8.0/en/select.html: "use some large number for the second parameter"
+    fn limit_for_bare_offset(&self) -> Option<&'static str> {
+        Some("18446744073709551615")
     }
 
     fn set_ops_distinct(&self) -> bool {
